@@ -1,10 +1,95 @@
 import Driver.Util
-/-! Driver command for M-ACK (require-ack locks): placeholder, replaced by the component's author. -/
+import Slock.Model.Ack
+/-! Driver command for M-ACK (require-ack locks, C11):
+  ack <followers> <mode 0=all|1=majority> <now0> <ev>;<ev>;…      one whole history per line
+events:  L|U req conn flag lockId key tflag timeout eflag expried count rcount <frame hex|->   |  T  |  P key  |  PW key  |  A id 0|1
+         |  K id follower 0|1  |  R 0|1  |  X 0|1  |  D ids|-  |  F ids|-  |  S
+output: per event, `;`-joined: the replies `conn:req:result:lcount:lrcount:data` `,`-joined (`-` if none); S prints the state.
+-/
 namespace Driver
+open Slock.Ack
+
+def ackShowData : Option Bytes → String
+  | some b => showHex b
+  | none => "-"
+
+def ackShowReply (r : Reply) : String :=
+  s!"{r.conn}:{r.req}:{r.result}:{r.lcount}:{r.lrcount}:{ackShowData r.data}"
+
+def ackShowReplies (rs : List Reply) : String :=
+  if rs.isEmpty then "-" else ",".intercalate (rs.map ackShowReply)
+
+def ackU32 (i : Int) : Nat := (i % 4294967296).toNat
+
+def ackShowKey (db : DB) (k : Key) : Option String :=
+  let hs := db.holders k.key
+  let ws := db.waiters k.key
+  let d := getData k.cell
+  if k.locked == 0 && !k.waited && hs.isEmpty && ws.isEmpty && d.isNone then none
+  else
+    let h := " ".intercalate (hs.map (fun r => s!"{r.cmd.lockId}.{r.depth}.{r.ack}.{if r.isAof then 1 else 0}.{r.cmd.req}"))
+    let w := " ".intercalate (ws.map (fun r => s!"{r.cmd.lockId}.{r.cmd.req}"))
+    some s!"k{k.key}={k.locked}/{if k.waited then 1 else 0}/[{h}]/[{w}]/{ackShowData d}"
+
+def ackKeyIds (db : DB) : List Nat :=
+  sortBySeq id ((db.keys.map (·.key) ++ db.recs.map (·.cmd.key)).eraseDups)
+
+def ackShowDB (db : DB) : String :=
+  let ks := ackKeyIds db
+  let parts := ks.filterMap (fun k => ackShowKey db (db.getKey k))
+  let js := ks.filterMap (fun k => let n := (db.journal.filter (·.key == k)).length; if n > 0 then some s!"{k}:{n}" else none)
+  let c := db.ctr
+  "|".intercalate parts ++ "|" ++
+    s!"T={db.tab.length}/{db.tab.length} J=[{" ".intercalate js}] lc={ackU32 c.lockCount} uc={ackU32 c.unLockCount} ld={ackU32 c.lockedCount} wc={ackU32 c.waitCount} to={ackU32 c.timeoutedCount} ex={ackU32 c.expriedCount} ue={ackU32 c.unlockErrorCount}"
+
+def ackParseCmd (ts : List String) : Option Cmd :=
+  match ts with
+  | [req, conn, flag, lockId, key, tflag, timeout, eflag, expried, count, rcount, d] => do
+    let req ← req.toNat?; let conn ← conn.toNat?; let flag ← flag.toNat?; let lockId ← lockId.toNat?; let key ← key.toNat?
+    let tflag ← tflag.toNat?; let timeout ← timeout.toNat?; let eflag ← eflag.toNat?; let expried ← expried.toNat?
+    let count ← count.toNat?; let rcount ← rcount.toNat?
+    if eflag != 0 then none
+    let data ← (if d == "-" then some none else (parseHexAux d.toList).map some)
+    pure { req, conn, flag, lockId, key, tflag, timeout, expried, count, rcount, data }
+  | _ => none
+
+def ackParseIds (s : String) : Option (List Nat) :=
+  if s == "-" then some [] else (s.splitOn ",").mapM String.toNat?
+
+def ackParseEv (op : String) : Option (Option Ev) :=
+  match (op.splitOn " ").filter (· ≠ "") with
+  | "L" :: ts => do let c ← ackParseCmd ts; if c.lockOk then pure (some (.lock c)) else none
+  | "U" :: ts => do let c ← ackParseCmd ts; if c.unlockOk then pure (some (.unlock c)) else none
+  | ["T"] => some (some .tick)
+  | ["P", k] => do let k ← k.toNat?; pure (some (.push k))
+  | ["PW", k] => do let k ← k.toNat?; pure (some (.pushW k))
+  | ["A", i, b] => do let i ← i.toNat?; pure (some (.aofed i (b == "1")))
+  | ["K", i, f, b] => do let i ← i.toNat?; let f ← f.toNat?; pure (some (.acked i f (b == "1")))
+  | ["R", b] => some (some (.role (b == "1")))
+  | ["X", b] => some (some (.closed (b == "1")))
+  | ["D", o] => do let o ← ackParseIds o; pure (some (.demote o))
+  | ["F", o] => do let o ← ackParseIds o; pure (some (.flush o))
+  | ["S"] => some none
+  | _ => none
+
+def runAck (db : DB) : List String → List String → Option (List String)
+  | [], acc => some acc.reverse
+  | op :: ops, acc =>
+    match ackParseEv op with
+    | some (some e) => let s := step db e; runAck s.1 ops (ackShowReplies s.2 :: acc)
+    | some none => runAck db ops (ackShowDB db :: acc)
+    | none => none
 
 def handleAck (toks : List String) : Option String :=
   match toks with
-  | "ack" :: _ => some "unimplemented"
+  | "ack" :: f :: m :: now0 :: rest =>
+    match f.toNat?, m.toNat?, now0.toNat? with
+    | some f, some m, some n =>
+      let ops := ((" ".intercalate rest).splitOn ";").filter (· ≠ "")
+      match runAck (DB.init { followers := f, majority := m == 1 } n) ops [] with
+      | some outs => some (";".intercalate outs)
+      | none => some "out-of-subset"
+    | _, _, _ => some "bad-ack-line"
   | _ => none
 
 end Driver
